@@ -29,13 +29,27 @@ def run(ctx):
     call = F.inherent('client::Channel', 'call')
     bodies = [b for b in F.with_descendants(call)]
     gb = [(b, i, j, s) for b in bodies for i, j, s in b.aggregates('client::ResponseGuard')]
-    if len(gb) != 1:
-        raise CannotDecide('ResponseGuard constructor in call: %d' % len(gb))
-    b, gi, gj, gs = gb[0]
     flag_field = F.field_of_type('client::ResponseGuard', lambda t: t == 'bool')
     id_field = F.field_of_type('client::ResponseGuard', lambda t: t == 'u64')
-    flag = P._field(('agg', b.id, gi, gj), flag_field)
-    R.ob('C03.guard', ('Channel::call', 'guard armed at creation'), flag[0] == 'const' and 'true' in flag[2], 'the guard is created armed (cancel: true)', [b.loc(gs)])
+    if len(gb) == 1:
+        b, gi, gj, gs = gb[0]
+        flag_alts = [P._field(('agg', b.id, gi, gj), flag_field)]
+    else:
+        # the guard may be built by a constructor function of its type: the creation point is the call to it
+        made = []
+        for b_ in bodies:
+            for bb_, t_ in b_.calls():
+                h_ = F.callee_fn(t_)
+                if h_ is None or not ('ResponseGuard' in h_.local_ty(0)) or not list(h_.aggregates('client::ResponseGuard')):
+                    continue
+                made.append((b_, bb_, t_, h_))
+        if len(made) != 1 or gb:
+            raise CannotDecide('ResponseGuard constructor in call: %d aggregates, %d constructor calls' % (len(gb), len(made)))
+        b, gi, t_, h_ = made[0]
+        gs = dict(t_, pl=t_['dest'])
+        flag_alts = [P._field(('agg', h_.id, i_, j_), flag_field) for i_, j_, s_ in h_.aggregates('client::ResponseGuard')]
+    R.ob('C03.guard', ('Channel::call', 'guard armed at creation'), bool(flag_alts) and all(fl[0] == 'const' and 'true' in fl[2] for fl in flag_alts),
+         'the guard is created armed (cancel: true)', [b.loc(gs)])
     enq = [(bb, t) for bb, t in b.calls() if callee_is(t, 'mpsc::Sender::send')]
     R.ob('C03.guard', ('Channel::call', 'single enqueue'), len(enq) == 1, 'the call enqueues its request once', [b.loc(t) for _, t in enq] or [b.loc(b.d)])
     if len(enq) == 1:
